@@ -96,5 +96,25 @@ theorem minres_output_track (N : NumOps α) (P : Params α) (sys : List (Sys α 
   · simp only [finishCol, List.getElem?_map, hgs, Option.map_some, mem_eq, hiters]
     rfl
 
+/-- The `scales` output of the model is `scale_prev · rhs_norm` of the track after `iters` iterations. -/
+theorem minres_output_scale (N : NumOps α) (P : Params α) (sys : List (Sys α n)) (m k : Nat) (s : Sys α n) (σ : α)
+    (hs : sys[m]? = some s) (hσ : s.shifts[k]? = some σ) :
+    ∃ col, (minres N P sys).scales[m]? = some col ∧
+      col[k]? = some ((trk N P s σ (track0 N s (prep N P s).b) (minres N P sys).iters).2.scalePrev * (prep N P s).nrm) := by
+  obtain ⟨J, hJ, hit, hcs⟩ := iterate_cs N P sys (nIter P n) 0
+    { cs := List.zipWith (initCol N) sys (sys.map (prep N P)), iters := 0, trace := [], convs := [], betas := [] }
+  have hiters : (minres N P sys).iters = J := by
+    simp only [minres]; rw [hit]; simp
+  have hc0 : (List.zipWith (initCol N) sys (sys.map (prep N P)))[m]? = some (initCol N s (prep N P s)) := by
+    simp only [List.getElem?_zipWith, List.getElem?_map, hs, Option.map_some]
+  have hcol := hcs m s _ hs hc0
+  have hg0 : (initCol N s (prep N P s)).gs[k]? = some (initGv (initLz N s (prep N P s).b).betaPrev) := by
+    simp only [initCol, List.getElem?_map, hσ, Option.map_some]
+  obtain ⟨hgs, _⟩ := colStep_iter_get N P s J (initCol N s (prep N P s)) k σ _ hσ hg0
+  refine ⟨((colStep N P s)^[J] (initCol N s (prep N P s))).gs.map fun g => g.scalePrev * (prep N P s).nrm, ?_, ?_⟩
+  · simp only [minres, List.getElem?_zipWith, List.getElem?_map, hs, Option.map_some, hcol]
+  · simp only [List.getElem?_map, hgs, Option.map_some, hiters]
+    rfl
+
 end out
 end LinOp.C11
